@@ -1,0 +1,41 @@
+//go:build verif
+
+package gcsutil
+
+import "sync/atomic"
+
+// Instrumentation for external runtime monitors; only compiled with the "verif" build tag.
+
+var verifHandler atomic.Value // of func(point, key string)
+
+// VerifSetHandler installs (or, with nil, removes) the callback invoked at every instrumented point.
+func VerifSetHandler(h func(point, key string)) {
+	if h == nil {
+		h = func(string, string) {}
+	}
+	verifHandler.Store(h)
+}
+
+func verifPoint(point, key string) {
+	if h, _ := verifHandler.Load().(func(string, string)); h != nil {
+		h(point, key)
+	}
+}
+
+// VerifLen returns the number of entries currently in the map.
+func (l *TransientLockMap) VerifLen() int {
+	l.mu.Lock()
+	defer l.mu.Unlock()
+	return len(l.locks)
+}
+
+// VerifSlotFull reports whether the key's entry exists and its slot is taken (i.e. the key is locked).
+func (l *TransientLockMap) VerifSlotFull(key string) (exists, full bool) {
+	l.mu.Lock()
+	defer l.mu.Unlock()
+	lock, ok := l.locks[key]
+	if !ok {
+		return false, false
+	}
+	return true, len(lock.ch) == 1
+}
